@@ -61,6 +61,12 @@ class StmtMixin:
             raise Unsupported(f"statement {type(s).__name__} (line {self.cur_line})")
         from .values import TypeMismatch
 
+        if self.c is not None and self.c.at and not self.spec_mode:
+            src = " ".join(ast.unparse(s).split())
+            for key, ghosts in self.c.at.items():
+                if src.startswith(key):
+                    for g in ghosts:
+                        self.eval(g.node, st)
         try:
             return m(s, st)
         except TypeMismatch as e:
@@ -315,6 +321,13 @@ class StmtMixin:
         t = self.ops.truthy(self.eval(s.test, st))
         self.oblige(st, t, f"assert@L{self.cur_line}", "assert", text=ast.unparse(s.test))
         st.assume(t)
+        # `assert x is not None` narrows Optional[T] to T (as a type checker would)
+        tt = s.test
+        if (isinstance(tt, ast.Compare) and len(tt.ops) == 1 and isinstance(tt.ops[0], ast.IsNot) and isinstance(tt.left, ast.Name)
+                and isinstance(tt.comparators[0], ast.Constant) and tt.comparators[0].value is None):
+            v = st.env.get(tt.left.id)
+            if isinstance(v, SV) and v.pt.kind == "opt":
+                st.set_var(tt.left.id, self.ops.opt_the(v))
         return [(st, Flow.NORMAL, None)]
 
     def st_Raise(self, s, st):
@@ -600,8 +613,6 @@ class StmtMixin:
             head.assume(smt.Le(k, n_term))
         for inv in spec.invariants:
             head.assume(self.eval_clause(inv, head))
-        for lem in spec.lemmas:
-            self.eval(lem.node, head)
         out = []
         # 2a. body
         body = head.fork()
@@ -609,6 +620,8 @@ class StmtMixin:
             body.assume(smt.Lt(k, n_term))
             self.assign_target(s.target, it.elem(k), body)
             body_states = [body]
+            for lem in spec.lemmas:
+                self.eval(lem.node, body)
         else:
             c = self.ops.truthy(self.eval(s.test, body))
             body.assume(c)
